@@ -35,6 +35,7 @@ TEXT_KEYISH = st.one_of(values.TEXT_SMALL, st.sampled_from(["'", '"', "a'b", '##
                         st.text(alphabet="ab'\"#$=,: []{}\\", max_size=6))
 param_values_full = values.json_values(text=TEXT_KEYISH, max_leaves=6)
 VALUE_STRATEGY = {'current': param_values}
+PLAIN_OBJECTS = {'on': False}   # C12: parameter objects of a plain class (represented by their definition text)
 OB_MAPPING_ARGS = {'on': False}   # AutoParameterObject arguments that are mappings (C02 known finding apo-mapping-order)
 
 
@@ -71,7 +72,10 @@ def programs(draw, max_modules=3, max_tasks=4, kinds=KINDS_BASIC, patterns=True,
             name = draw(st.sampled_from(PATTERN_NAMES if is_pat else TASK_NAMES))
             if is_pat:
                 group, base = None, 'Task'
-            eff_group = group if base == 'Task' else (mod['name'] if base == 'ModuleTask' else f'{sub}:{mod["name"]}')
+            # Meta.task_group on module-derived groups: release 1.4.0 IGNORES it for ModuleTask and honours it for
+            # DoubleModuleTask
+            meta_group = draw(st.sampled_from(['g', 'xg', 'g:h'])) if base != 'Task' and draw(st.integers(0, 3)) == 0 else None
+            eff_group = group if base == 'Task' else (mod['name'] if base == 'ModuleTask' else (meta_group or f'{sub}:{mod["name"]}'))
             slug = f'{eff_group}:{name}' if eff_group else name
             if slug in used_slugs:
                 continue
@@ -80,6 +84,8 @@ def programs(draw, max_modules=3, max_tasks=4, kinds=KINDS_BASIC, patterns=True,
             cls_counter += 1
             t = {'cls': cls, 'name': name, 'derive_name': False, 'group': group, 'base': base, 'abstract': False,
                  'slug': slug, 'params': [], 'inputs': [], 'kind': draw(st.sampled_from(kinds)), 'style': 'args'}
+            if meta_group:
+                t['meta_group'] = meta_group
             # parameters
             keys = draw(st.lists(st.sampled_from(PARAM_KEYS), max_size=3, unique=True))
             for k in keys:
@@ -101,10 +107,11 @@ def programs(draw, max_modules=3, max_tasks=4, kinds=KINDS_BASIC, patterns=True,
                     flavour = 5
                     p['dtype'] = 'Path'
                 if flavour == 6 and objects:
-                    p['object'] = 'Ob' if OB_MAPPING_ARGS['on'] else draw(st.sampled_from(['Oa', 'Ob']))
-                if flavour == 7:
+                    p['object'] = 'Ob' if OB_MAPPING_ARGS['on'] else draw(st.sampled_from(
+                        ['Oa', 'Ob'] + (['Oe', 'Oe'] if PLAIN_OBJECTS['on'] else [])))
+                if flavour in (7, 8):
                     p['dtype'] = draw(st.sampled_from(['int', 'str', 'list']))
-                    if draw(st.booleans()):
+                    if draw(st.integers(0, 2)) > 0:
                         p['default'] = {'v': {'int': 3, 'str': 'dv', 'list': [1]}[p['dtype']]}
                 t['params'].append(p)
             # inputs (only if not a pattern source)
@@ -236,12 +243,20 @@ def value_for(draw, plist, nested_ok=True):
     """A config value acceptable for every parameter declared under this key."""
     if any(p.get('object') for p in plist):
         cls = [p['object'] for p in plist if p.get('object')][0]
-        if cls in ('Oa', 'Ob') and not nested_ok:
+        if cls in ('Oa', 'Ob', 'Oe') and not nested_ok:
             pass
-        elif cls in ('Oa', 'Ob') and draw(st.integers(0, 3)) == 0:
+        elif cls in ('Oa', 'Ob', 'Oe') and draw(st.integers(0, 3)) == 0:
             # parameter objects INSIDE a list / mapping parameter value
             inner = [draw(value_for(plist, nested_ok=False)) for _ in range(draw(st.integers(1, 2)))]
             return inner if draw(st.booleans()) else {'first': inner[0], 'n': draw(values.small_ints)}
+        if cls == 'Oe':
+            # a plain class: positional / keyword split and the WRITTEN order of the keyword arguments are part of its text
+            kws = draw(st.permutations(['k', 'w', 'tag']))
+            vals_ = {'k': draw(st.one_of(values.small_ints, values.TEXT_SMALL)), 'w': draw(st.sampled_from([5, 6])),
+                     'tag': draw(st.sampled_from(['t', 'u']))}
+            if draw(st.booleans()):
+                return {'__object__': 'Oe', 'args': [vals_['k']], 'kwargs': {n: vals_[n] for n in kws if n != 'k' and draw(st.booleans())}}
+            return {'__object__': 'Oe', 'args': [], 'kwargs': {n: vals_[n] for n in kws if n == 'k' or draw(st.booleans())}}
         if cls == 'Oa':
             return {'__object__': 'Oa', 'args': [draw(_pv())], 'kwargs': draw(st.sampled_from([{}, {'y': 1}, {'y': 'q'}]))}
         kw = {}
@@ -437,6 +452,23 @@ def contexts(draw, case):
                     if other['ns'] == sub_ns:
                         sub['global'] = {k: v for k, v in sub['global'].items() if k not in other['layer']['global']}
                 layer['nested'].append({'ns': sub_ns, 'layer': sub})
+                if draw(st.booleans()):
+                    # depth 2: the nested context itself uses another one, plainly (it then stays under the namespace
+                    # its user was loaded under) or `as ns2`; keys unused anywhere else in this layer
+                    used = set(layer['global']) | {k for e in layer['for_ns'].values() for k in e} | {
+                        k for o in layer['nested'] for k in o['layer']['global']}
+                    free = sorted(set(ks) - used)
+                    if free:
+                        sub2 = {'form': draw(st.sampled_from(['file_json', 'file_yaml'])), 'global': {}, 'for_ns': {}}
+                        for k in draw(st.lists(st.sampled_from(free), min_size=1, max_size=2, unique=True)):
+                            sub2['global'][k] = draw(value_for(ks[k]))
+                        # a relative namespace that leads to an existing one, or none
+                        rel = [None, None]
+                        if sub_ns:
+                            rel += [n[len(sub_ns) + 2:] for n in nss if n.startswith(sub_ns + '::')]
+                        else:
+                            rel += nss
+                        sub['nested'] = [{'ns': draw(st.sampled_from(rel)), 'layer': sub2}]
         layers.append(layer)
     return {'layers': layers, 'as_list': len(layers) > 1 or draw(st.booleans())}
 
